@@ -377,6 +377,10 @@ impl UniverseNet {
         if e.alias_loop {
             resp.header.rcode = Rcode::ServerFailure;
         }
+        // a forwarder, too, may list its answer in any order
+        if self.knobs.shuffle_answers && resp.answers.len() > 1 {
+            resp.answers.reverse();
+        }
         resp
     }
 
